@@ -45,6 +45,19 @@ exclusions_on()
   return on;
 }
 
+//! narrow work-arounds are counted per finding (same counter names as the run-time uses for whole-case signatures)
+const char* const SIG_F1 = "C14:frame-entry:current-time>=frame-end:next-record-is-event";
+const char* const SIG_F2 = "C14:lm-gradient:build-without-openmp";
+const char* const SIG_F3 = "C14:lm-cache:accepted-prompts-multiple-of-cache-size";
+const char* const SIG_F4 = "C14:lm-additive:tof-bins>1";
+const char* const SIG_F5 = "C14:file-output:tof-template-mashed-to-one-tof-bin";
+void
+excluded(const char* sig)
+{
+  vf::stats().excluded_known++;
+  vf::stats().count(std::string("excluded:") + sig);
+}
+
 // ---- temporary files: one directory per case under VERIF_TMP, removed at the end of the case -------------
 std::string
 tmp_root()
@@ -624,7 +637,7 @@ run_cfgs(const json& c, bool single_tof_bin_template, bool axial_range_not_from_
       if (x.to_file && single_tof_bin_template && exclusions_on())
         { // finding C14-F5: the Interfile header LmToProjData writes for a TOF template mashed to ONE TOF bin cannot be read back
           x.to_file = false;
-          stats().excluded_known++;
+          excluded(SIG_F5);
         }
       v.push_back(x);
     }
@@ -751,7 +764,7 @@ check_likelihood(const json& c, const World& w, const Selection& sel, const std:
           const std::size_t per_tof = addv.size() / std::size_t(w.tmpl->get_num_tof_poss());
           for (std::size_t i = per_tof; i < addv.size(); ++i)
             addv[i] = addv[i % per_tof];
-          stats().excluded_known++;
+          excluded(SIG_F4);
         }
       w.index.vec_to_projdata(*add, addv);
       for (auto it = mult->begin_all(); it != mult->end_all(); ++it)
@@ -778,7 +791,7 @@ check_likelihood(const json& c, const World& w, const Selection& sel, const std:
           // on which LM_distributable_computation's assert(!record_ptr.empty()) fires
           while (ex.n_prompts_acc % lmcache == 0)
             ++lmcache;
-          stats().excluded_known++;
+          excluded(SIG_F3);
         }
       lmobj.set_cache_max_size(static_cast<unsigned long>(lmcache)); // 0: read from the list-mode source at every call
 
@@ -901,7 +914,7 @@ check_likelihood(const json& c, const World& w, const Selection& sel, const std:
     }
   // tolerance 1e-4 of the maximum (float accumulation in a different order; observed maxima are in the evidence)
   if (gradient_lost)
-    stats().excluded_known++;
+    excluded(SIG_F2);
   else
     PROPAGATE(compare_vec(vlm, vpd, 1e-4, "list-mode gradient (data term) vs projection-data gradient of the histogram " + ctx,
                           "max rel diff LM gradient vs projdata gradient"));
@@ -1041,7 +1054,7 @@ check(const json& c)
             hazard_any = true;
           if (hazard && exclusions_on())
             { // finding C14-F1, excluded narrowly: this frame is not run
-              stats().excluded_known++;
+              excluded(SIG_F1);
               continue;
             }
           const Expect ex = expected(w, sel, store_prompts, store_delayeds);
@@ -1083,7 +1096,7 @@ check(const json& c)
           {
             if (frame_entry_hazard(w, frames) && exclusions_on())
               {
-                stats().excluded_known++;
+                excluded(SIG_F1);
                 continue;
               }
             const auto res = run_lm_to_projdata(w, lm, frames, 0, cfgs[k], store_prompts, store_delayeds, dir.path);
